@@ -636,7 +636,7 @@ func run(ctx *bex.Ctx) {
 		},
 		bound: fmt.Sprintf("every history of <= %d operations over producers of lists of lists (movingWindow, movingWindowRemove, combine, combineN(2,w->w), map to pairs; inner lists are views on the operand's array or copies) plus append/set/reverse/+/top/skip/eval/element extraction, 3 initial pools", dNested)})
 	e.bfs(bfsCfg{space: "list-histories", pools: listPools(), depth: dList, lenBound: 12, allow: general,
-		bound: fmt.Sprintf("every history of <= %d operations of the full list alphabet (13 producers, 12 consumers, re-evaluation of the constant function, append inside the generated function) on every handle (pair) of the pool, 10 initial pools; lists longer than 12 are not built", dList)})
+		bound: fmt.Sprintf("every history of <= %d operations of the full list alphabet (13 producers, 13 consumers incl. a host iteration that stops behind the first element, re-evaluation of the constant function, append inside the generated function) on every handle (pair) of the pool, 10 initial pools; lists longer than 12 are not built", dList)})
 	core := map[string]bool{"append(7)": true, "append(8)": true, "set(0,9)": true, "reverse()": true, "order(e->e)": true, "map(e->e+1)": true, "+": true,
 		"eval()": true, "first()": true, "re-evaluate constant function": true, "inside: c.append(7)": true, "inside: c.append(8)": true}
 	e.bfs(bfsCfg{space: "list-histories-core-alphabet", pools: listPools(), depth: dList + 1, lenBound: 12, allow: func(o *opDef) bool { return core[o.name] },
